@@ -1155,6 +1155,8 @@ class Evaluator:
                 return [(i + start, x) for i, x in enumerate(self._iterate(args[0], n))]
             if f == "zip":
                 return [tuple(t) for t in zip(*[self._iterate(a, n) for a in args])]
+            if f == "round" and len(args) == 1 and isinstance(args[0], (int, float)) and not isinstance(args[0], bool):
+                return round(args[0])
             if f in ("abs", "min", "max", "sum"):
                 flat = args[0] if len(args) == 1 and not isinstance(args[0], (int, float)) else args
                 flat = self._iterate(flat, n) if not isinstance(flat, list) else flat
